@@ -116,6 +116,19 @@ pub fn run() -> i32 {
             v.push(("secretbox/parts".into(), fp == b));
             for (c, rt) in [("json", json_rt(&b)), ("bincode", bin_rt(&b))] {
                 v.push((format!("secretbox/{}", c), rt.as_ref().map(|x| x == &b && x.decrypt_to_vec(&ks.n, &ks.k).ok().as_deref() == Some(&m[..])).unwrap_or(false)));
+                // the decoded object must still emit libsodium's layout through every emitter
+                v.push((format!("secretbox/{}->layout", c), rt.as_ref().map(|x| x.to_vec() == wire && x.to_bytes::<Vec<u8>>() == wire && x.clone().into_vec() == wire).unwrap_or(false)));
+                if let Ok(x) = rt {
+                    v.push((format!("secretbox/{}->into_vec(no clone)", c), x.into_vec() == wire));
+                }
+            }
+            // emitters must not depend on the spare capacity of the caller's buffer
+            for spare in [0usize, 1, 15, 16, 17, 64] {
+                let (t, d) = b.clone().into_parts();
+                let mut roomy = Vec::with_capacity(d.len() + spare);
+                roomy.extend_from_slice(&d);
+                let fp = DryocSecretBox::from_parts(t, roomy);
+                v.push((format!("secretbox/from_parts(spare capacity {})->layout", spare), fp.to_vec() == wire && fp.clone().into_vec() == wire && fp.into_vec() == wire));
             }
             let bv: DryocSecretBox<Vec<u8>, Vec<u8>> = DryocSecretBox::encrypt(&m, &ks.n, &ks.k);
             for (c, rt) in [("json", json_rt(&bv)), ("bincode", bin_rt(&bv))] {
@@ -131,6 +144,14 @@ pub fn run() -> i32 {
             v.push(("box/parts".into(), DryocBox::from_parts(t, d, e) == b));
             for (c, rt) in [("json", json_rt(&b)), ("bincode", bin_rt(&b))] {
                 v.push((format!("box/{}", c), rt.as_ref().map(|x| x == &b && x.decrypt_to_vec(&SB::<24>::from(&ks.n), &SB::<32>::from(&ks.pk_a), &ks.sk_b).ok().as_deref() == Some(&m[..])).unwrap_or(false)));
+                v.push((format!("box/{}->layout", c), rt.as_ref().map(|x| x.to_vec() == wire && x.to_bytes::<Vec<u8>>() == wire).unwrap_or(false)));
+            }
+            for spare in [0usize, 16, 64] {
+                let (t, d, e) = b.clone().into_parts();
+                let mut roomy = Vec::with_capacity(d.len() + spare);
+                roomy.extend_from_slice(&d);
+                let fp = DryocBox::from_parts(t, roomy, e);
+                v.push((format!("box/from_parts(spare capacity {})->layout", spare), fp.to_vec() == wire));
             }
             // sealed box
             let wire = aead::ref_wire(Fam::Seal, &ks, &m);
@@ -152,6 +173,7 @@ pub fn run() -> i32 {
             v.push(("signed/parts".into(), SignedMessage::from_parts(s1, m1) == sm));
             for (c, rt) in [("json", json_rt(&sm)), ("bincode", bin_rt(&sm))] {
                 v.push((format!("signed/{}", c), rt.as_ref().map(|x| x == &sm && x.verify(&skp.public_key).is_ok()).unwrap_or(false)));
+                v.push((format!("signed/{}->layout", c), rt.as_ref().map(|x| x.to_vec() == wire && x.to_bytes::<Vec<u8>>() == wire).unwrap_or(false)));
             }
             v
         }));
